@@ -193,6 +193,7 @@ def spec_module():
             'eq': _B('eq', s_eq), 'implies': _B('implies', s_implies), 'iff': _B('iff', s_iff),
             'forall': _B('forall', s_forall), 'exists': _B('exists', s_exists), 'ite': _B('ite', s_ite),
             'is_real': _B('is_real', s_is_real), 'ge': _B('ge', s_ge), 'le': _B('le', lambda a, b: s_ge(b, a)),
+            'json_file': _B('json_file', lambda doc: __import__('pyvc.builtins_', fromlist=['VFile']).VFile(__import__('pyvc.builtins_', fromlist=['_text_dump'])._text_dump('json', doc))),
             'raised': Builtin('raised', lambda a, k: s_raised(*a)), 'nonsingular': _B('nonsingular', s_nonsingular),
         }, opaque=False)
     return _SPEC
